@@ -353,10 +353,35 @@ func (s *TrieSpec) build() (st *trie.SlimTrie, err error) {
 	return trie.NewSlimTrie(encoderOf(s.Enc), s.keyStrings(), valuesOf(s.Enc, s.ValIDs, 0), s.opt())
 }
 
-func fresh(enc string) *trie.SlimTrie {
+// freshBroken is set when NewSlimTrie(enc, nil, nil) - the receiver every load
+// in the harness starts from - panics or returns something that is not empty.
+// That can only happen through state shared between instances (a package-level
+// "empty" object that an earlier load filled): the process can no longer
+// isolate instances. C05 reports it (cross-instance residue); the other
+// properties abandon the run as inconclusive.
+var freshBroken string
+
+func fresh(enc string) (st *trie.SlimTrie) {
+	defer func() {
+		if r := recover(); r != nil {
+			if freshBroken == "" {
+				freshBroken = "NewSlimTrie(enc, nil, nil) panicked: " + clip(fmt.Sprint(r), 120)
+			}
+			st = &trie.SlimTrie{}
+		}
+	}()
 	st, err := trie.NewSlimTrie(encoderOf(enc), nil, nil)
 	if err != nil {
 		panic(err)
+	}
+	if s := st.Stat(); s.KeyCnt != 0 || s.NodeCnt != 0 {
+		if freshBroken == "" {
+			freshBroken = fmt.Sprintf("NewSlimTrie(enc, nil, nil) returned a trie that is not empty (KeyCnt=%d NodeCnt=%d)", s.KeyCnt, s.NodeCnt)
+		}
+	} else if st.GetID("") != -1 {
+		if freshBroken == "" {
+			freshBroken = "NewSlimTrie(enc, nil, nil) returned a trie that finds the empty key"
+		}
 	}
 	return st
 }
